@@ -57,6 +57,11 @@ class Holder:
         new_dict["population"] = population
         new_dict["simulation"] = population.simulation
 
+        # The clone must not share its value store with the original.
+        memory_storage = storage.InMemoryStorage(is_eternal=self._eternal)
+        memory_storage._arrays = dict(self._memory_storage._arrays)
+        new_dict["_memory_storage"] = memory_storage
+
         return new
 
     def create_disk_storage(self, directory=None, preserve=False):
